@@ -155,13 +155,17 @@ fn rename_rule_variables(rule: &Rule, counter: &mut usize) -> Rule {
     }
 }
 
-/// Smallest n such that no variable of `pattern` is called `v<m>` with m >= n.
+/// Smallest n such that no variable of `pattern` is called `v<m>` with n <= m < usize::MAX / 2.
+/// Names in the upper half of the range are left alone: a counter that starts below them
+/// cannot reach them, while starting above them would overflow.
 fn first_free_variable_index(pattern: &TriplePattern) -> usize {
     fn scan(term: &Term, next: &mut usize) {
         match term {
             Term::Variable(v) => {
                 if let Some(n) = v.strip_prefix('v').and_then(|d| d.parse::<usize>().ok()) {
-                    *next = (*next).max(n.saturating_add(1));
+                    if n < usize::MAX / 2 {
+                        *next = (*next).max(n + 1);
+                    }
                 }
             }
             Term::QuotedTriple(qt) => {
